@@ -192,13 +192,13 @@ def check(case, out):
                 [[n, str(x)] for n, x in gotp], [[n, str(x)] for n, x in want])))
             break
     # variants
-    if case.get('variants') is not None:
+    if True:        # no variants given = none may be written (a foreign variant is a violation too)
         byname = {}
         for e in flat:
             byname[e['name']] = e
         want = []
         valid = True
-        for vn, pairs in case['variants']:
+        for vn, pairs in (case.get('variants') or []):
             full = case['name'] + '.' + vn
             arr = list(exp['array'])
             if len(full) > 32:
